@@ -437,8 +437,8 @@ def run(ctx):
     engine.install(need_parser=True)
     ctx.prove("C14")
     duckdb_writer_rule(ctx)
-    n_gen = 45 if ctx.tier == "quick" else 1300
-    n_suite = 30 if ctx.tier == "quick" else 400
+    n_gen = 30 if ctx.tier == "quick" else 600
+    n_suite = 20 if ctx.tier == "quick" else 250
     tmp = Path(tempfile.mkdtemp(prefix="c14_"))
     hist: Dict[str, int] = {}
     t_engine = 0.0
@@ -503,6 +503,8 @@ def run(ctx):
         shutil.rmtree(tmp, ignore_errors=True)
     ctx.cov["engine_seconds"] = round(t_engine, 1)
     ctx.cov["input_distribution"] = hist
+    import time as _t
+    ctx.cov["python_cpu_seconds"] = round(_t.process_time(), 1)
     ctx.cov["rule"] = ("one evaluated case = one returned dataset (or the scalar file) of one run variant (csv|parquet x return_only_persistent) "
                        "compared with the in-memory run of the same script/data; distinct = (case, variant, result name); plus every string of "
                        "the writer-rule table")
